@@ -284,7 +284,7 @@ func ScaledFamilies(big bool) []Scaled {
 	}
 	// operand indices >= 241 in every instruction kind that takes a constant or a slot:
 	// bind type, block type and name, field get/set, local get/set, POPN count
-	for _, n := range []int{238, 239, 240, 241, 242, 2287, 2288} {
+	for _, n := range []int{238, 239, 240, 241, 242, 255, 256, 257, 258, 300, 511, 512, 513, 1000, 2287, 2288} {
 		var b strings.Builder
 		for i := 0; i < n; i++ {
 			fmt.Fprintf(&b, "print %d\n", i+2)
@@ -296,6 +296,22 @@ func ScaledFamilies(big bool) []Scaled {
 		}
 		add(fmt.Sprintf("locals-in-block-%d", n), "def blk {\n"+v.String()+"print v0 + v"+fmt.Sprint(n-1)+"\neval v"+fmt.Sprint(n-1)+" = 7\nx = v"+fmt.Sprint(n-1)+"\n}\nprint 1\n")
 		add(fmt.Sprintf("locals-top-%d", n), v.String()+"print v0 + v"+fmt.Sprint(n-1)+"\neval v"+fmt.Sprint(n-1)+" = 7\nprint v"+fmt.Sprint(n-1)+"\n")
+	}
+	// many blocks: N named toplevel blocks, N named children, N fields in one block
+	for _, n := range []int{100, 239, 240, 241, 242, 300} {
+		var tb, cb, fb strings.Builder
+		cb.WriteString("def parent {\n")
+		fb.WriteString("def wide \"w\" {\n")
+		for i := 0; i < n; i++ {
+			fmt.Fprintf(&tb, "def srv \"s%d\" { port = %d }\n", i, 8000+i)
+			fmt.Fprintf(&cb, " def kid \"k%d\" { v = %d }\n", i, i)
+			fmt.Fprintf(&fb, " f%d = %d\n", i, i+3000)
+		}
+		cb.WriteString("}\n")
+		fb.WriteString(" print f0 + f" + fmt.Sprint(n-1) + "\n}\n")
+		add(fmt.Sprintf("manyblocks-top-%d", n), tb.String()+"bind srv:last -> struct\n")
+		add(fmt.Sprintf("manyblocks-kids-%d", n), cb.String())
+		add(fmt.Sprintf("manyblocks-fields-%d", n), fb.String())
 	}
 	// operand stack depth via right-nested parentheses: 1+(1+(1+...)) pushes depth n
 	for _, n := range []int{1022, 1023, 1024, 1025, 1026} {
